@@ -7,8 +7,8 @@ package zero
 //@ func Bytes
 //@   modifies b[*]
 //@   ensures zeroed: forall j int :: 0 <= j && j < len(b) ==> b[j] == 0
-//@   loop i invariant zeroed-prefix: forall j int :: 0 <= j && j <= #rangeindex ==> b[j] == 0
-//@   loop i decreases len(b) - #rangeindex
+//@   loop i invariant zeroed-prefix: forall j int :: 0 <= j && j < #iter ==> b[j] == 0
+//@   loop i decreases len(b) - #iter
 
 //@ func Bytea32
 //@   requires b != nil
@@ -25,4 +25,4 @@ package zero
 //@   requires x != nil
 //@   assert-at call SetInt64 every-word-of-the-value-wiped-before-it-is-reset: arg0 == x && arg1 == 0 && (forall j int :: 0 <= j && j < len(lastresult("Bits")) ==> lastresult("Bits")[j] == 0)
 //@   assert-at call Bits words-of-this-value: arg0 == x
-//@   loop * invariant wiped-prefix: -1 <= #rangeindex && #rangeindex < len(b) && (forall j int :: 0 <= j && j <= #rangeindex ==> b[j] == 0)
+//@   loop * invariant wiped-prefix: 0 <= #iter && #iter <= len(b) && (forall j int :: 0 <= j && j < #iter ==> b[j] == 0)
